@@ -161,6 +161,10 @@ def spaces(tier):
     sp.append(Space("n4-batched-exits-j3", make(4, ("run_command",), jobs_hi=3, batch=True),
                     "4 run_command tasks, every edge set, par bits, --jobs 3 fixed, one SIGCHLD may stand for two or three exits", depth=9,
                     preset={"jobs": 2, "again": True}))
+    sp.append(Space("n4-group-over-cached", make(4, graphs.ALL_KINDS, jobs_hi=2),
+                    "N=4 with t0 a command, t1 an experiment (cache bit), t2 a group, t3 of any kind: every edge set, listing order, par bits, "
+                    "cache bits, jobs 1..2 (a group in the middle whose members are all cached, next to an uncached sibling)", depth=10,
+                    preset={"k0": 1, "k1": 0, "k2": 2, "again": False}))
     sp.append(Space("scale-wide-133", scale_fn, "133 tasks (a group over 131 commands, one of them depending on a shared task that the root "
                     "lists again 128 tasks later); shared task kind, listing position, --again, jobs {1,3}", depth=4,
                     goals=["graph of more than 128 tasks"]))
